@@ -6,6 +6,9 @@ from concurrent.futures import ThreadPoolExecutor
 V = os.path.dirname(os.path.dirname(os.path.abspath(__file__)))
 root = sys.argv[1] if len(sys.argv) > 1 else os.path.join(V, "refactors")
 patches = sorted(glob.glob(os.path.join(root, "*", "patch.diff")) + glob.glob(os.path.join(root, "*", "*", "patch.diff")))
+# SWEEP_SKIP=<n> leaves out the first n patches (resuming a run that was cut short); SWEEP_CHECKS="C01 C07" restricts the checks
+patches = patches[int(os.environ.get('SWEEP_SKIP', '0')):]
+CHECKS = os.environ.get('SWEEP_CHECKS', '').split() or [f'C{n:02d}' for n in range(1, 21)]
 def one(p):
     d = tempfile.mkdtemp(prefix='refac_')
     try:
@@ -16,10 +19,10 @@ def one(p):
             if r.returncode != 0:
                 return p, ['PATCH DOES NOT APPLY ' + r.stderr[:200]]
         out = []
-        for n in range(1, 21):
-            c = subprocess.run([os.path.join(V, 'check'), f'C{n:02d}', '--no-evidence', '--repo', d], capture_output=True, text=True, cwd=V)
+        for cn in CHECKS:
+            c = subprocess.run([os.path.join(V, 'check'), cn, '--no-evidence', '--repo', d], capture_output=True, text=True, cwd=V)
             if c.returncode != 0:
-                out.append(f'C{n:02d} exit={c.returncode}')
+                out.append(f'{cn} exit={c.returncode}')
                 out += ['   ' + l.strip()[:330] for l in c.stdout.splitlines() if l.strip().startswith('refuted') or l.startswith('ANALYSIS-ERROR')][:4]
         return p, out
     finally:
